@@ -1,6 +1,7 @@
 package props
 
 import (
+	"go/token"
 	"fmt"
 	"strings"
 
@@ -104,8 +105,11 @@ func runC18(c *eng.Ctx) {
 					if !ok {
 						return false
 					}
-					u, ok := mu.Value.(*ssa.UnOp)
-					return ok && u.X == base
+					// the stored value is the modified copy (directly, or handed back by the helper that built it)
+					return eng.DependsOn(mu.Value, func(x ssa.Value) bool {
+						u, ok := x.(*ssa.UnOp)
+						return ok && u.X == base
+					})
 				})
 				_, lost := eng.PathExists(eng.PathQuery{Fn: f, After: s.Instr, Target: func(in ssa.Instruction) bool {
 					switch in.(type) {
@@ -146,7 +150,7 @@ func runC18(c *eng.Ctx) {
 		f := c.Fn("coordinator/master.replicaLeaderElector.ElectLeader")
 		facts := p.MustFacts(f)
 		// the append that builds the candidate list
-		apps := c.Some(f, eng.CallTo("builtin:append"), "append(liveReplicaNodes.Replicas, replica)")
+		apps := p.Sites(f, eng.CallTo("builtin:append")) // candidate-list shape; the direct shape returns the first live replica from the loop
 		var look *ssa.Lookup
 		for _, b := range eng.BlocksT(f) {
 			for _, in := range b.Instrs {
@@ -183,8 +187,12 @@ func runC18(c *eng.Ctx) {
 					return false
 				})
 				nonEmpty := facts.Find(facts.At(r), "ne", func(d string, _ ssa.Value) bool { return strings.Contains(d, "len(") }, eng.DescIs("0"))
-				c.Check(fromList && len(nonEmpty) > 0, fmt.Sprintf("leader-from-live-candidates[%d]", i), r, f,
-					"a successful election returns an element of the non-empty live candidate list", "returns "+p.Desc(lv)+"; facts: "+strings.Join(facts.Render(facts.At(r)), " ; "))
+				// direct shape: the returned replica is the one whose liveness test just succeeded
+				liveHere := facts.Find(facts.At(r), "true", func(_ string, v ssa.Value) bool { return extractIs(v, look, 1) }, nil)
+				direct := len(liveHere) > 0 && (eng.SameValue(lv, look.Index) || p.Desc(lv) == p.Desc(look.Index)) &&
+					eng.DependsOnField(look.Index, "models.Replica.Replicas") && eng.DependsOn(look.Index, func(x ssa.Value) bool { return p.Desc(x) == "shardID" })
+				c.Check(fromList && len(nonEmpty) > 0 || direct, fmt.Sprintf("leader-from-live-candidates[%d]", i), r, f,
+					"a successful election returns a live replica of the requested shard (an element of the non-empty live candidate list, or the replica whose liveness test just succeeded)", "returns "+p.Desc(lv)+"; facts: "+strings.Join(facts.Render(facts.At(r)), " ; "))
 			}
 		}
 	})
@@ -213,7 +221,23 @@ func runC18(c *eng.Ctx) {
 		}
 		c.Check(rngAll, "all-databases", nil, lo, "LeadersOnNode ranges over every database's shard states", "")
 		ro := c.Fn("models.StorageState.ReplicasOnNode")
-		c.Check(len(p.Sites(ro, eng.AnyCallTo("models.Replica.Contain"))) > 0, "replica-membership", nil, ro, "ReplicasOnNode selects shards whose replica list contains the node", "")
+		member := false
+		nodeParam := ssa.Value(ro.Params[1])
+		for _, s := range p.Sites(ro, eng.AnyCallTo("models.Replica.Contain")) {
+			if a := eng.CallArgs(s.Instr.(*ssa.Call)); len(a) > 0 && a[0] == nodeParam {
+				member = true
+			}
+		}
+		for _, b := range eng.BlocksT(ro) {
+			for _, in := range b.Instrs {
+				if bo, ok := in.(*ssa.BinOp); ok && bo.Op == token.EQL {
+					if (bo.X == nodeParam && eng.DependsOnField(bo.Y, "models.Replica.Replicas")) || (bo.Y == nodeParam && eng.DependsOnField(bo.X, "models.Replica.Replicas")) {
+						member = true // the membership scan written in place
+					}
+				}
+			}
+		}
+		c.Check(member, "replica-membership", nil, ro, "ReplicasOnNode selects shards whose replica list contains the node", "no membership test of nodeID in a shard's replica list")
 	})
 
 	// ---- 5. assignment preconditions -------------------------------------------------------------------------------------------
